@@ -83,6 +83,14 @@ def SWEEP(tier):
                             if su or sg:
                                 # pwd/grp report the id 4294967295 as -1, which set*id() take as "leave unchanged"
                                 out.append({"opts": dict(opts, uid=-1, gid=-1), "fault": None})
+                            if chroot:
+                                # where the process stands when it starts: anywhere, /, the root, below it,
+                                # or in a sibling directory whose name begins with the root's name
+                                for cwd in ("slash", "root", "below", "prefix-sibling"):
+                                    out.append({"opts": dict(opts, cwd=cwd), "fault": None})
+                            # started without any privilege: whatever is configured and cannot be done must abort
+                            out.append({"opts": dict(opts, start="unprivileged", port=7070), "fault": None})
+                            out.append({"opts": dict(opts, start="unprivileged-as-target", port=7070), "fault": None})
                             out.append({"opts": dict(opts, port=7070), "fault": {"point": "bind", "error": "EINVAL"}})
                             for pt in FAULT_POINTS:
                                 if not _applies(opts, pt):
@@ -103,7 +111,10 @@ def gen(seed, index, tier):
             "user": rng.choice(["gopher", "nobody", "www-data"]),
             "group": rng.choice(["gophers", "nogroup", "www-data"]),
             "port": rng.choice([70, 7070, 443, 1024, 1023]),
-            "start": rng.choice(["root", "root", "setuid-root-binary"])}
+            "start": rng.choice(["root", "root", "setuid-root-binary", "unprivileged", "unprivileged-as-target"]),
+            "cwd": rng.choice(["elsewhere", "slash", "root", "below", "prefix-sibling"])}
+    if opts["start"].startswith("unprivileged"):
+        opts["port"] = rng.choice([7070, 1024, 70])
     fault = None
     if rng.random() < 0.5:
         pts = [p for p in FAULT_POINTS if _applies(opts, p)]
@@ -132,6 +143,14 @@ class Model:
         if opts.get("start") == "setuid-root-binary":
             # started by the target user through a set-uid-root executable: only the effective ids are 0
             self.ruid, self.rgid = opts["uid"], opts["gid"]
+        elif opts.get("start") == "unprivileged":
+            self.uid = self.ruid = self.suid = 1000
+            self.gid = self.rgid = self.sgid = 1000
+        elif opts.get("start") == "unprivileged-as-target":
+            # an ordinary start by the very account the configuration names
+            self.uid = self.ruid = self.suid = opts["uid"] if opts["uid"] > 0 else 1000
+            self.gid = self.rgid = self.sgid = opts["gid"] if opts["gid"] > 0 else 1000
+        self.start_ids = (self.uid, self.gid)
         self.groups = [0, 4, 24]
         self.root_real = "/"
         self.cwd_real = start_cwd
@@ -355,7 +374,9 @@ def execute(sc, tape=None):
         cp = harness.base_config(docroot, over)
         with simfs.real_open(confp, "w") as f:
             cp.write(f)
-        m = Model(opts, sc["fault"], docroot, start_cwd="/var/empty/start")
+        start_cwd = {"elsewhere": "/var/empty/start", "slash": "/", "root": docroot, "below": docroot + "/sub/dir",
+                     "prefix-sibling": docroot + "-private"}[opts.get("cwd", "elsewhere")]
+        m = Model(opts, sc["fault"], docroot, start_cwd=start_cwd)
         harness._modstate.restore()
         saved = {}
 
@@ -377,6 +398,8 @@ def execute(sc, tape=None):
             for n in ("chroot", "chdir", "setgroups", "setregid", "setreuid", "setuid", "setgid",
                       "setresuid", "setresgid", "seteuid", "setegid"):
                 patch(os, n, getattr(m, n))
+            patch(os, "getcwd", lambda: (("/" + m.cwd_real[len(m.root_real.rstrip("/")):].lstrip("/"))
+                                         if m.chrooted and m.cwd_inside_root() else m.cwd_real))
             patch(os, "getuid", lambda: m.ruid)
             patch(os, "geteuid", lambda: m.uid)
             patch(os, "getgid", lambda: m.rgid)
@@ -415,7 +438,32 @@ def execute(sc, tape=None):
         priv_idx = [i for i, n in enumerate(names) if n in PRIV_CALLS]
         first_priv = priv_idx[0] if priv_idx else None
         unusable = (opts["setuid"] and opts["uid"] < 0) or (opts["setgid"] and opts["gid"] < 0)
-        if sc["fault"] is None and unusable:
+        unpriv = opts.get("start", "root").startswith("unprivileged")
+        if sc["fault"] is None and unpriv and not unusable:
+            # nothing privileged can be done: every configured step either is a no-op for these ids or
+            # fails, and a failure must abort.  What may never happen is a server that runs without a
+            # configured restriction.
+            if srv is not None:
+                if opts["chroot"] and not m.chrooted:
+                    viol = V("served-with-more-privilege-than-configured",
+                             "usechroot = yes, started without privilege: initialize returned a server that is not "
+                             "chrooted", what="no-chroot")
+                elif opts["setuid"] and m.uid != opts["uid"]:
+                    viol = V("served-with-more-privilege-than-configured",
+                             "setuid configured, started as uid %r: server runs as %r" % (m.start_ids[0], m.uid),
+                             what="uid")
+                elif opts["setgid"] and m.gid != opts["gid"]:
+                    viol = V("served-with-more-privilege-than-configured",
+                             "setgid configured, started as gid %r: server runs as %r" % (m.start_ids[1], m.gid),
+                             what="gid")
+                elif (opts["setuid"] or opts["setgid"]) and m.groups:
+                    viol = V("served-with-more-privilege-than-configured",
+                             "supplementary groups %r kept" % (m.groups,), what="groups")
+            elif not (opts["chroot"] or opts["setuid"] or opts["setgid"]) and opts["port"] >= 1024 \
+                    and not opts["tls"]:
+                viol = V("startup-succeeds", "initialize raised %r although nothing privileged is configured"
+                         % (result["exc"],), exc=type(result["exc"]).__name__)
+        elif sc["fault"] is None and unusable:
             # the configured account has the id (uid_t)-1, which set*id() read as "leave unchanged":
             # the only safe outcome is that start-up aborts
             if srv is not None and (m.uid == 0 or m.gid == 0):
@@ -500,7 +548,7 @@ def execute(sc, tape=None):
         shape = None
         if nontrivial:
             shape = [opts["chroot"], opts["setuid"], opts["setgid"], opts["tls"], opts["detach"],
-                     opts["servertype"], opts.get("start", "root"), opts["port"] < 1024, sc["fault"]["point"] if sc["fault"] else None,
+                     opts["servertype"], opts.get("start", "root"), opts.get("cwd", "elsewhere"), opts["port"] < 1024, sc["fault"]["point"] if sc["fault"] else None,
                      sc["fault"]["error"] if sc["fault"] else None]
         norm = [[(a.replace(base, "<BASE>") if isinstance(a, str) else a) for a in c] for c in calls]
         dig = common.digest(norm, repr(type(result["exc"]).__name__ if result["exc"] else None))
